@@ -30,6 +30,7 @@ func runC17(r *an.Run) {
 	c17PlusCommentsDropped(r)
 	c17SpansAsGiven(r)
 	c17IdentityUnchanged(r)
+	oneFileSet(r, "R7-one-fileset-for-patch-and-targets")
 }
 
 func c17NoCommentConstructed(r *an.Run) {
@@ -517,6 +518,20 @@ func c17IdentityUnchanged(r *an.Run) {
 	}
 	if !r.Check(diffCall != nil, short(f)+"|edit-script", f.Pos(), "walkSlice computes an edit script with diff.Difference") {
 		return
+	}
+	// the script covers the two lists whole: its dimensions are the lengths of the two child lists themselves
+	// (a script over the "middle" only leaves the common ends without their Identity step, which is what
+	// carries their comments into the next snapshot)
+	{
+		a := diffCall.Call.Args
+		isLenOfParam := func(v ssa.Value, pi int) bool {
+			c, ok := v.(*ssa.Call)
+			if !ok || an.StaticCallee(c) == nil || an.StaticCallee(c).Name() != "Len" || len(c.Call.Args) == 0 {
+				return false
+			}
+			return c.Call.Args[0] == ssa.Value(paramAt(f, pi))
+		}
+		r.Check(len(a) >= 2 && isLenOfParam(a[0], 0) && isLenOfParam(a[1], 1), short(f)+"|script-covers-both-lists", diffCall.Pos(), "the edit script is computed over from.Len() x to.Len(): every element of both lists gets its step (found %s x %s)", an.Describe(a[0]), an.Describe(a[1]))
 	}
 	var loop *an.Loop
 	for _, l := range an.Loops(f) {
